@@ -220,6 +220,29 @@ impl Run {
             run.w.app.wasm_sudo(ics.clone(), &RawOp::RawRemove { key: Binary::from(b"admin".to_vec()) }).unwrap();
             let ver = json!({"contract":"crates.io:cw20-ics20","version":"0.11.1"});
             run.w.app.wasm_sudo(ics.clone(), &RawOp::RawSet { key: Binary::from(b"contract_info".to_vec()), value: Binary::from(serde_json::to_vec(&ver).unwrap()) }).unwrap();
+            // the old format credited a channel only when a success acknowledgement arrived: packets still
+            // in flight are escrowed but not in the books (migrate's v2 step adds them)
+            for d in ["nat", "tok"] {
+                let dc = run.denom_chain(d);
+                let inflight: u128 = run.pkts.iter().filter(|p| !p.done).map(|p| {
+                    let x: cw20_ics20::ibc::Ics20Packet = from_json(&p.packet.data).unwrap();
+                    if x.denom == dc { x.amount.u128() } else { 0 }
+                }).sum();
+                if inflight == 0 {
+                    continue;
+                }
+                let mut key = vec![0u8, 13];
+                key.extend_from_slice(b"channel_state");
+                key.extend_from_slice(&[0u8, 3]);
+                key.extend_from_slice(b"ch1");
+                key.extend_from_slice(dc.as_bytes());
+                let cur = run.w.app.dump_wasm_raw(&ics).into_iter().find(|(k, _)| *k == key).map(|(_, v)| v).expect("channel state of the pre-history");
+                let v: Value = serde_json::from_slice(&cur).unwrap();
+                let o: u128 = v["outstanding"].as_str().unwrap().parse().unwrap();
+                let t: u128 = v["total_sent"].as_str().unwrap().parse().unwrap();
+                let nv = json!({"outstanding": (o - inflight).to_string(), "total_sent": (t - inflight).to_string()});
+                run.w.app.wasm_sudo(ics.clone(), &RawOp::RawSet { key: Binary::from(key), value: Binary::from(serde_json::to_vec(&nv).unwrap()) }).unwrap();
+            }
             let ns = b"allow_list";
             let mut prefix = (ns.len() as u16).to_be_bytes().to_vec();
             prefix.extend_from_slice(ns);
@@ -502,8 +525,14 @@ pub fn rand_cfg(rng: &mut Rng) -> Value {
     let scale = if rng.chance(1, 4) { 40 } else { 0 };
     let mut pre = vec![];
     if legacy == "v1" {
-        for _ in 0..rng.range(1, 4) {
+        let k = rng.range(1, 4);
+        for _ in 0..k {
             pre.push(json!({"act":"transfer","by":rng.pick(&USERS),"args":{"denom":rng.pick(&["nat","tok","tok"]),"ch":"ch1","amt":rng.range(1,5),"to":"remote1"}}));
+        }
+        for i in 1..=k {
+            if rng.chance(1, 3) {
+                pre.push(json!({"act":"ack","by":"relayer","args":{"pkt":i,"success":true}}));
+            }
         }
     }
     // a token can only have been sent (pre-history) if it was sendable then
